@@ -249,6 +249,11 @@ fn do_ibc_packet_receive(
     // If it originated on our chain, it looks like "port/channel/ucosm".
     let denom = parse_voucher_denom(&msg.denom, &packet.src)?;
 
+    // make sure we are allowed to pay this token out before touching any state: every error
+    // returned from here on becomes an error acknowledgement, which must leave the balances alone
+    let to_send = Amount::from_parts(denom.to_string(), msg.amount);
+    let gas_limit = check_gas_limit(deps.as_ref(), &to_send)?;
+
     // make sure we have enough balance for this
     reduce_channel_balance(deps.storage, &channel, denom, msg.amount)?;
 
@@ -260,8 +265,6 @@ fn do_ibc_packet_receive(
     };
     REPLY_ARGS.save(deps.storage, &reply_args)?;
 
-    let to_send = Amount::from_parts(denom.to_string(), msg.amount);
-    let gas_limit = check_gas_limit(deps.as_ref(), &to_send)?;
     let send = send_amount(to_send, msg.receiver.clone());
     let mut submsg = SubMsg::reply_on_error(send, RECEIVE_ID);
     submsg.gas_limit = gas_limit;
